@@ -1,8 +1,13 @@
+// C35: no unauthenticated network input crashes the server.
+//
+// Engine B, deviation-bounded: a WORKER process runs a real core.Core with every listener enabled on a private
+// loopback port block and an authentication configuration under which the driver is never authorized; the DRIVER
+// sends, for every listener, every single-deviation mutant of a set of valid unauthenticated seed exchanges and checks
+// that the worker process is still alive (and answers a probe). A death is bisected to one exchange (the replay).
 package main
 
 import (
 	"flag"
-	"os"
 )
 
 var (
@@ -10,14 +15,20 @@ var (
 	flagBase   = flag.Int("base", 0, "worker: base port")
 	flagDir    = flag.String("dir", "", "worker: scratch dir")
 	flagMoQ    = flag.Bool("moq", true, "worker: enable MoQ")
-	flagMem    = flag.Int("mem", 0, "worker: RLIMIT_AS MB")
+	flagTLS    = flag.Bool("tls", true, "worker: enable the TLS listeners (RTSPS, RTMPS, MoQ); each costs inotify instances")
+	flagMem    = flag.Int("mem", 0, "worker: RLIMIT_AS in MB (0 = none)")
+
+	flagLanes  = flag.Int("lanes", 0, "driver: number of worker processes (0 = 2 x GOMAXPROCS, max 32)")
+	flagChunk  = flag.Int("chunk", 384, "driver: exchanges per chunk")
+	flagBudget = flag.Int("budget", 0, "driver: internal deadline in seconds (0 = tier default)")
+	flagOnly   = flag.String("only", "", "driver: only seeds whose listener/name contains this string")
 )
 
 func main() {
 	flag.Parse()
 	if *flagWorker {
-		workerMain(*flagBase, *flagDir, *flagMoQ, *flagMem)
+		workerMain(*flagBase, *flagDir, *flagMoQ, *flagTLS, *flagMem)
 		return
 	}
-	os.Exit(0)
+	driverMain()
 }
